@@ -41,7 +41,16 @@ pub fn validate_jump_destination(counter: &RuntimeBoxedVal, vm: &mut VM) -> exec
     });
 
     let jump_target = match counter.constant_fold().data() {
-        RSVD::KnownData { value, .. } => value.value_le().as_u32(),
+        RSVD::KnownData { value, .. } => {
+            // The target is a full 256-bit word, so it must be compared as one: narrowing
+            // it first would let a huge target alias a valid one through its low bits.
+            let target = value.value_le();
+            if target > ethnum::U256::from(u32::MAX) {
+                return Err(execution::Error::InvalidOffsetForJump { data: *value }
+                    .locate(instruction_pointer));
+            }
+            target.as_u32()
+        }
         _ => {
             return Err(execution::Error::NoConcreteJumpDestination.locate(instruction_pointer));
         }
